@@ -400,6 +400,12 @@ pub fn path_defs() -> Vec<SubjectDef> {
         core(true, vec![rx(" ")], vec![vec![rx("0x[0-9a-f]+(u|l|ul)?|0b[01]+(u|l|ul)?")], vec![rx("x[a-z]*(;|::)|y[0-9]*(;|::)")], vec![tok(";")], vec![rx("(?:p[0-9]*|q[a-c]*)(?:!|\\?\\?|=)")]], false),
         // a counted repetition far beyond the generator's bounds: hundreds of states in front of one final state
         core(true, vec![], vec![vec![rx("[0-9a-f]{1,300}")], vec![rx("[g-z]+")], vec![tok("-")]], false),
+        // classes of exactly two bytes a power of two apart, in both alignments of the differing bit (0x30/0x50 are 0x20
+        // apart and the smaller one already has that bit set), on states with at most two edges
+        core(true, vec![], vec![vec![rx("[0P]+;")], vec![rx("[ @][?_]x")], vec![rx("[08][AQ]!")], vec![rx("[kK][0p]-")], vec![rx("[=\\]][-M]")]], false),
+        core(false, vec![], vec![vec![brx(b"(?-u:[\\x60\\x80])+;")], vec![brx(b"(?-u:[\\xA0\\xC0])(?-u:[\\x7f\\xff])x")], vec![tok(";")]], false),
+        // bounded repetitions of the dot and of dot-like classes (str mode): a run counted in chars, ending on 2-4 byte chars
+        core(true, vec![rx(" ")], vec![vec![rx("a.?")], vec![rx("b.{2}")], vec![rx("c[^\\n]{0,3}!")], vec![rx("[d-z]+")], vec![rx("0(?s:.){1,2}")], vec![rx("1(.)?(.)?;")]], false),
         // Unicode-aware negated class loop lexing arbitrary bytes (utf8 = false): invalid sequences end the loop
         core(false, vec![], vec![vec![rx("[^;§]+")], vec![tok(";")], vec![tok("§")], vec![brx(b"(?-u:[\\x80-\\xff])")]], false),
     ]
